@@ -322,6 +322,26 @@ func TestC12(t *testing.T) {
 		if msg := checkCoherence(t, u, cl); msg != "" {
 			t.Fatalf("C12 %s: %s", c, msg)
 		}
+		// a copy reweighted by 2^-1074 (some weights vanish, others become a few subnormal units): exact contents are not
+		// representable there, but iteration must still yield positive weights only, and no value twice
+		if rapid.IntRange(0, 2).Draw(t, "underflowprobe") == 0 {
+			cp := u.s.Copy()
+			if err := cp.Reweight(0x1p-1074); err != nil {
+				t.Fatalf("C12 %s: Reweight(2^-1074) refused: %v", c, err)
+			}
+			seen := map[float64]bool{}
+			cp.ForEach(func(v, w float64) bool {
+				if !(w > 0) {
+					t.Fatalf("C12 %s: after Reweight(2^-1074) iteration yields (%v, %v)", c, v, w)
+				}
+				if seen[v] {
+					t.Fatalf("C12 %s: after Reweight(2^-1074) iteration yields the value %v twice", c, v)
+				}
+				seen[v] = true
+				return false
+			})
+			cl.label("partial-underflow-probe")
+		}
 		bins := len(u.k.expectPos(c)) + len(u.k.expectNeg(c))
 		if u.k.zero > 0 {
 			bins++
